@@ -40,7 +40,7 @@ M = [
  ("C10_params-not-in-groups", L+"sdk/circuit/circuit.py", "for spec in unpack_circuit_spec(self.__circuit_spec):\\n            for p in spec.values():", "for spec in self.__circuit_spec:\\n            for p in spec.values():"),
  ("C10_loss-param-unvalidated", L+"sdk/circuit/components.py", '        self.validate()\\n        transmission = 1 - self._loss', '        transmission = 1 - self._loss'),
  ("C11_key-without-brightness", L+"emulator/simulation/sampler.py", '            "brightness",\\n            "purity",', '            "purity",'),
- ("C11_qs-key-without-pc", L+"emulator/simulation/quick_sampler.py", "            self.post_select,\\n            self.photon_counting,\\n            self.circuit.heralds,", "            self.post_select,\\n            self.circuit.heralds,"),
+ ("C11_qs-key-without-pc", L+"emulator/simulation/quick_sampler.py", "            post_select_rules,\\n            self.photon_counting,\\n            self.circuit.heralds,", "            post_select_rules,\\n            self.circuit.heralds,"),
  ("C11_backend-not-in-key", L+"emulator/simulation/sampler.py", "vals = [self.__circuit.U_full, self.input_state, self.backend.backend]", "vals = [self.__circuit.U_full, self.input_state]"),
  ("C12_cx-target", L+"qubit/converter/qiskit_convert.py", "target = q1 - min([q0, q1])", "target = q0 - min([q0, q1])"),
  ("C12_tdg-is-t", L+"qubit/converter/qiskit_convert.py", '"tdg": Tadj(),', '"tdg": T(),'),
